@@ -140,7 +140,7 @@ func init() {
 	}
 }
 
-var fieldNames = []string{"Alpha", "Beta", "Count", "Data", "Name", "When", "X", "Tags"}
+var fieldNames = []string{"Alpha", "Beta", "Count", "Data", "Name", "When", "X", "Tags", "Größe", "Part２", "Ver٣x", "Ünï_1"}
 
 func drawFieldValue(rt *rapid.T, kind string) lang.Value {
 	arr := func(k lang.Kind) lang.Value {
